@@ -17,6 +17,11 @@ type HashMap interface {
 
 // ::Std::HashMap
 func initHashMap() {
+	// `HashMap()` creates an empty map
+	value.HashMapClass.ConstructorFunc = func(class *value.Class) value.Value {
+		return value.Ref(NewHashMapOfValue(0))
+	}
+
 	// Instance methods
 	c := &value.HashMapClass.MethodContainer
 	Def(
